@@ -59,6 +59,13 @@ func main() {
 			e.Emit(concCase(s, out, clean))
 		}
 		e.Meta["runs_with_callers_giving_up"] = nAb
+		nSd := e.Scale(60, 600)
+		for i := 0; i < nSd && timeouts < 2*maxTimeouts; i++ {
+			s := genStopDrain(e.Rnd)
+			out, clean := runConc(s, e.Rnd)
+			e.Emit(concCase(s, out, clean))
+		}
+		e.Meta["runs_stopped_inside_a_store_callback"] = nSd
 		e.Meta["expired_10s_bounds"] = timeouts
 		if (e.Thorough || e.Search) && !strings.HasPrefix(focus, "seq/") {
 			// complete enumeration of the schedules of a few small programs
